@@ -3030,6 +3030,11 @@ class GenInterp:
             raise Untranslatable(f"{self.fname}: unknown variable `{e[1][0]}` in a generator function")
         if k == "unary" and e[1] == "!":
             return not self.ev(e[2], env)
+        if k in ("binary", "bin", "binop") and len(e) >= 4 and e[1] in ("||", "&&"):
+            a, b = self.ev(e[2], env), self.ev(e[3], env)
+            if isinstance(a, bool) and isinstance(b, bool):
+                return (a or b) if e[1] == "||" else (a and b)
+            raise Untranslatable(f"{self.fname}: non-boolean operands of `{e[1]}` in a generator function")
         if k == "field" and e[1][0] == "path" and len(e[1][1]) == 1:
             name = e[1][1][0] + "." + e[2]
             if name in env:
@@ -3295,6 +3300,50 @@ def check_ctor_wiring(fns, rel, branch_fn, caller, engine_rel, engine_ty):
     return found
 
 
+def check_registration(fns, rel, gen_fn, where_fn_body):
+    """what the generated function registers on its first call, EVALUATED from the source for the 8 combinations of
+    empty / non-empty tags, events, dependencies — the registration sequence `Registry.firstCallOps` / `C12r` assume:
+    metadata (tags, events, dependencies in THIS order) and the clear callback under the cache's name iff some list is non-empty;
+    the conditional-invalidation callback always; the statistics cell under the same name"""
+    gi = GenInterp(fns, rel)
+    ident = lambda n: [("id", n, 0)]
+    body = where_fn_body
+    lets = {st[1][1]: st[3] for st in body[1] if st[0] == "let" and st[1][0] == "pid"}
+    for need in ("invalidation_registration", "invalidation_callback_registration"):
+        if need not in lets:
+            raise Untranslatable(f"{rel}: `{gen_fn}` no longer computes `{need}`")
+    for bits in range(8):
+        nt, ne, nd = bits & 1, (bits >> 1) & 1, (bits >> 2) & 1
+        env = {"attrs.tags": ("patlist", [ident("T0")] * nt), "attrs.events": ("patlist", [ident("E0")] * ne),
+               "attrs.dependencies": ("patlist", [ident("D0")] * nd), "fn_name_str": ident("NAME__"),
+               "cache_ident": ident("CACHE__"), "order_ident": ident("ORDER__"), "stats_ident": ident("STATS__")}
+        for v in ("verif_y_clear_order", "verif_y_clear_map", "verif_y_cond_order", "verif_y_cond_map"):
+            env[v] = []
+        toks = gi.ev(lets["invalidation_registration"], env)
+        txt = " ".join(t[1] for t in toks)
+        if not (nt or ne or nd):
+            if txt.strip():
+                raise Untranslatable(f"{rel}: `{gen_fn}` registers invalidation metadata although tags, events and dependencies are all empty")
+            continue
+        want = ("InvalidationMetadata :: new ( vec ! [ " + ("T0 . to_string ( ) " if nt else "") + "] , vec ! [ " + ("E0 . to_string ( ) " if ne else "")
+                + "] , vec ! [ " + ("D0 . to_string ( ) " if nd else "") + "] , ) ;")
+        if want not in txt.replace("] , )", "] , )"):
+            raise Untranslatable(f"{rel}: `{gen_fn}`: the metadata is no longer `InvalidationMetadata::new(tags, events, dependencies)` in this order "
+                                 f"(tags={nt} events={ne} dependencies={nd}): {txt[:200]}")
+        if "global ( ) . register ( NAME__ , metadata )" not in txt:
+            raise Untranslatable(f"{rel}: `{gen_fn}` no longer registers the metadata under the cache's name")
+        if "global ( ) . register_callback ( NAME__ ," not in txt:
+            raise Untranslatable(f"{rel}: `{gen_fn}` no longer registers the clear callback under the cache's name")
+    env = {"fn_name_str": ident("NAME__"), "cache_ident": ident("CACHE__"), "order_ident": ident("ORDER__"),
+           "verif_y_cond_order": [], "verif_y_cond_map": []}
+    txt = " ".join(t[1] for t in gi.ev(lets["invalidation_callback_registration"], env))
+    if "global ( ) . register_invalidation_callback ( NAME__ ," not in txt:
+        raise Untranslatable(f"{rel}: `{gen_fn}` no longer registers the conditional-invalidation callback under the cache's name")
+    ptxt = " ".join(t[1] for t in production_tokens(rel))
+    if "stats_registry :: register ( # fn_name_str , & # stats_ident )" not in ptxt and "stats_registry :: register ( # fn_name_str , & * # stats_ident )" not in ptxt:
+        raise Untranslatable(f"{rel}: the statistics cell is no longer registered as `stats_registry::register(#fn_name_str, &#stats_ident)`")
+
+
 def check_scope_dispatch(rel):
     """the generated function runs the THREAD-LOCAL branch exactly when the `scope` attribute says thread, else the GLOBAL one:
     `let __scope = #scope_expr; if __scope == …::ThreadLocal { #thread_local_branch } else { #global_branch }` with
@@ -3319,6 +3368,7 @@ def translate_wrapper():
     path = os.path.join(REPO, rel)
     fns = {f["name"]: f for (_, f) in parse_source(path)}
     check_scope_dispatch(rel)
+    check_registration(fns, rel, "generate_global_branch", body_of(fns["generate_global_branch"]) if "generate_global_branch" in fns else None)
     check_ctor_wiring(fns, rel, "generate_thread_local_branch", "cache", "cachelito-core/src/thread_local_cache.rs", "ThreadLocalCache")
     check_ctor_wiring(fns, rel, "generate_global_branch", "cache", "cachelito-core/src/global_cache.rs", "GlobalCache")
     out = []
@@ -3478,6 +3528,7 @@ def translate_async_wrapper():
     if "new" not in eng:
         raise Untranslatable("cachelito-core/src/async_global_cache.rs: `AsyncGlobalCache::new` is missing")
     new_params = [pn for (pn, _) in eng["new"]["params"] if pn != "self"]
+    check_registration(fns, rel, "cache_async", body_of(fns["cache_async"]))
     out = []
     info = {"configs": [], "new_params": new_params}
     for bits in range(16):
